@@ -303,9 +303,19 @@ class Sib:
     @staticmethod
     def _trial_components(t: T) -> set:
         """maximal constant-index paths rooted at wave_data that a value depends on: ('mo_coeff', 1), ('ci1',) ..."""
-        from ..symex import subterms
         out = set()
-        for x in subterms(t):
+        # values only: X.shape / .size / .ndim / .dtype of a component is book-keeping, not a dependence on its entries
+        seen, stack, nodes = set(), [t], []
+        while stack:
+            x = stack.pop()
+            if not isinstance(x, T) or x.uid in seen:
+                continue
+            seen.add(x.uid)
+            if x.op == "attr" and x.args[1] in ("shape", "size", "ndim", "dtype"):
+                continue
+            nodes.append(x)
+            stack.extend(a for a in x.args if isinstance(a, T))
+        for x in nodes:
             if x.op == "getitem" and x.args[1].op == "const":
                 path, y = [], x
                 while y.op == "getitem" and y.args[1].op == "const":
@@ -346,6 +356,47 @@ class Sib:
                         + (f"; dropped {missing}" if missing else ""), a)
         if n == 0:
             self.ctx.rep.note(f"SIB-2 (trial components, {which}): no class implements both entry points itself")
+
+    def estimator_sees_the_trial(self, which: str):
+        """SIB-2 (dependence form).  <psi_T|O|phi> / <psi_T|phi> and <psi_T|phi> are properties of the same trial
+        state: a hand-written energy / force-bias routine depends on every component of wave_data that the overlap of
+        the same class and entry point depends on (through the Green's function it builds).  A shortcut that drops the
+        trial orbitals from one of them (e.g. a Green's function written for the identity basis) leaves the siblings
+        describing different states.  Classes whose estimator differentiates the overlap (wave_function_auto) inherit
+        the dependence and are skipped."""
+        p = self.p
+        n = 0
+        for cname, ci in sorted(p.classes.items()):
+            if not cname.startswith(W):
+                continue
+            short = cname[len(W):]
+            for suffix in ("", "_restricted"):
+                fo = p.lookup_method(cname, f"_calc_overlap{suffix}")
+                fm = p.lookup_method(cname, f"_calc_{which}{suffix}")
+                if fo is None or fm is None or fo.is_abstract or fm.is_abstract:
+                    continue
+                if fm.cls in (W + "wave_function_auto", W + "wave_function") or fo.cls == W + "wave_function":
+                    continue
+                try:
+                    eo, em = self.E(short, f"_calc_overlap{suffix}"), self.E(short, f"_calc_{which}{suffix}")
+                except AnalysisError:
+                    continue
+                if eo.result is None or em.result is None:
+                    continue
+                co, cm = self._trial_components(eo.result), self._trial_components(em.result)
+                if not co:
+                    continue
+                from ..symex import subterms
+                if any(x.op == "call" and x.args[0].op == "name" and x.args[0].args[0] in ("jax.jvp", "jax.vjp", "jax.grad")
+                       for x in subterms(em.result)):
+                    continue
+                n += 1
+                missing = sorted(co - cm, key=str)
+                self.ctx.ob("SIB-2", f"{short}: _calc_{which}{suffix} depends on every trial component _calc_overlap{suffix} does",
+                            not missing, f"overlap reads {sorted(co, key=str)}; {which} reads {sorted(cm, key=str)}"
+                            + (f"; dropped {missing}" if missing else ""), fm)
+        if n == 0:
+            self.ctx.rep.note(f"SIB-2 (estimator / overlap trial components, {which}): no hand-written estimator found")
 
     # ------------------------------------------------------------------ rhf
     def rhf_restricted_vs_unrestricted(self, which: str):
